@@ -80,11 +80,11 @@ static const cfg_t cfgs[] = {
     { "U1.create_r(2) || X.set_rank(a,2);get_num  (ES1=1,a=3)", 0, 1, 1, { 3 },
       2,
       { { A_U1, 1, { CRR(1, 2) } }, { A_X, 2, { SR(0, 2), NUM() } } } },
-    { "U0.set_rank(a,2) || X.set_rank(b,3) || U1.set_rank(c,4) (a=2? no: "
-      "ES1=1,a=4,b=2,c=3) rotation",
-      0, 1, 3, { 4, 2, 3 }, 3,
-      { { A_U0, 1, { SR(0, 2) } }, { A_X, 1, { SR(1, 3) } },
-        { A_U1, 1, { SR(2, 4) } } } },
+    { "U0.set_rank(a,3) || X.set_rank(b,4) || U1.set_rank(c,5)  chain "
+      "(ES1=1,a=2,b=3,c=4)",
+      0, 1, 3, { 2, 3, 4 }, 3,
+      { { A_U0, 1, { SR(0, 3) } }, { A_X, 1, { SR(1, 4) } },
+        { A_U1, 1, { SR(2, 5) } } } },
 };
 
 static const cfg_t *C;
